@@ -339,8 +339,9 @@ def spell(header, style=0, rng=None):
 
 
 def encrypt(alg, enc, key, plaintext, header_extra=None, zip_=False, style=0, serialization="compact", aad=None,
-            unprotected=None, recipient_header=None, sender_priv=None, rnd=os.urandom, alg_in="protected"):
-    """Build a JWE for one recipient with the reference implementation. `key`: native public key / secret bytes."""
+            unprotected=None, recipient_header=None, sender_priv=None, rnd=os.urandom, alg_in="protected", epk_private=False):
+    """Build a JWE for one recipient with the reference implementation. `key`: native public key / secret bytes.
+    `epk_private`: (hostile producer) the epk header carries the PRIVATE JWK of the ephemeral key."""
     prot = {"enc": enc}
     if alg_in == "protected":
         prot = {"alg": alg, "enc": enc}
@@ -358,6 +359,11 @@ def encrypt(alg, enc, key, plaintext, header_extra=None, zip_=False, style=0, se
     if alg.startswith("ECDH"):
         eph = ephemeral_for(key)
         epk = public_jwk(pub_of(eph))
+        if epk_private:
+            if epk["kty"] == "EC":
+                epk["d"] = b64u(eph.private_numbers().private_value.to_bytes(len(b64u_dec(epk["x"].encode())), "big")).decode()
+            else:
+                epk["d"] = b64u(eph.private_bytes_raw()).decode()
         (prot if alg_in == "protected" or serialization == "compact" else rh)["epk"] = epk
         merged["epk"] = epk
     if alg == "dir":
